@@ -19,6 +19,7 @@ func runE2E(c e2e.Case) (ev.Info, error) {
 	if err != nil {
 		return info, err
 	}
+	tr = tr.FirstRun()
 	if len(tr.Problems) > 0 {
 		return info, fmt.Errorf("%v", tr.Problems)
 	}
